@@ -15,6 +15,8 @@ pub struct Mp(Vec<(V, V)>, Option<V>);
 pub struct St(Vec<(String, V)>, Option<String>);
 impl ser::Serializer for S {
     type Ok = V; type Error = E; type SerializeSeq = Sq; type SerializeTuple = Sq; type SerializeTupleStruct = Sq; type SerializeTupleVariant = Sq; type SerializeMap = Mp; type SerializeStruct = St; type SerializeStructVariant = St;
+    // the value tree shows a value the way a compact binary format (the bridge's bincode) sees it
+    fn is_human_readable(&self) -> bool { false }
     fn serialize_bool(self, v: bool) -> Result<V, E> { Ok(V::Bool(v)) }
     fn serialize_i8(self, v: i8) -> Result<V, E> { Ok(V::I(v as i128)) } fn serialize_i16(self, v: i16) -> Result<V, E> { Ok(V::I(v as i128)) } fn serialize_i32(self, v: i32) -> Result<V, E> { Ok(V::I(v as i128)) } fn serialize_i64(self, v: i64) -> Result<V, E> { Ok(V::I(v as i128)) } fn serialize_i128(self, v: i128) -> Result<V, E> { Ok(V::I(v)) }
     fn serialize_u8(self, v: u8) -> Result<V, E> { Ok(V::U(v as u128)) } fn serialize_u16(self, v: u16) -> Result<V, E> { Ok(V::U(v as u128)) } fn serialize_u32(self, v: u32) -> Result<V, E> { Ok(V::U(v as u128)) } fn serialize_u64(self, v: u64) -> Result<V, E> { Ok(V::U(v as u128)) } fn serialize_u128(self, v: u128) -> Result<V, E> { Ok(V::U(v)) }
